@@ -133,59 +133,95 @@ package detect
 //@   modifies nothing
 
 // ---------------------------------------------------------------------------------------------
-// detect_fast.go — worker pool. Schedules are not explored: the obligations below are the per-iteration
-// protocol contracts that meta-theorem M1 (DESIGN §2.6) needs.
+// detect_fast.go — worker pool. Schedules are not explored: the obligations below are the sequential
+// per-iteration / per-call contracts that meta-theorem M1 (DESIGN §2.6) composes:
+//   dispatch: job k carries index k and the k-th consecutive n-byte chunk of the stream; one Add per send;
+//   worker:   every received job is judged by `round` on its own data, results go to column j.i, Done exactly once.
+// The pool contract assumed after wg.Wait() in the three dispatchers is the composition of the two (trusted, M1).
 
 //@ func worker
-//@   requires source != nil && n >= 0 && wait != nil
 //@   calls round in {Round15, Round12}
+//@   requires wait != nil
 //@   requires (round == fn(Round15) && len(distributions) == 15) || (round == fn(Round12) && len(distributions) == 12)
 //@   requires len(counter) == len(distributions)
 //@   requires forall a int :: {distributions[a]} 0 <= a && a < len(distributions) ==> allocated(distributions[a]) && ref(distributions[a]) != ref(distributions)
+//@   requires forall a int, c int :: {distributions[a], distributions[c]} 0 <= a && a < c && c < len(distributions) ==> ref(distributions[a]) != ref(distributions[c])
 //@   modifies distributions[*], counter
 //@   loop 1
-//@     assumes 0 <= i && (forall a int :: {distributions[a]} 0 <= a && a < len(distributions) ==> i < len(distributions[a]))
-//@     invariant len(buf) == n && off(buf) == 0 && fresh(buf)
+//@     assumes 0 <= j.i && (forall a int :: {distributions[a]} 0 <= a && a < len(distributions) ==> j.i < len(distributions[a]))
+//@     assumes allocated(j.data) && off(j.data) == 0
 //@     invariant done(wait) == done(wait)@pre + $i
 //@   loop 2
-//@     invariant len(buf) == n && off(buf) == 0 && fresh(buf)
+//@     invariant len(resArr) == len(distributions) && fresh(resArr) && ref(resArr) != ref(distributions)
+//@     invariant forall a int :: {resArr[a]} 0 <= a && a < len(resArr) ==> resArr[a] != nil && resArr[a].Q == app(runnerOf(a), j.data).Q && resArr[a].Pass == app(runnerOf(a), j.data).Pass
+//@     invariant forall a int :: {distributions[a]} 0 <= a && a < $i ==> distributions[a][j.i] == app(runnerOf(a), j.data).Q
 
 //@ func bootWorker
-//@   requires source != nil && n >= 0
 //@   requires (round == fn(Round15) && len(distributions) == 15) || (round == fn(Round12) && len(distributions) == 12)
 //@   requires len(counter) == len(distributions)
 //@   requires forall a int :: {distributions[a]} 0 <= a && a < len(distributions) ==> allocated(distributions[a]) && ref(distributions[a]) != ref(distributions)
+//@   requires forall a int, c int :: {distributions[a], distributions[c]} 0 <= a && a < c && c < len(distributions) ==> ref(distributions[a]) != ref(distributions[c])
 //@   modifies nothing
-//@   ensures r1 != nil
+//@   ensures r1 != nil && sent(r0) == 0 && !closed(r0)
 //@   loop 1
-//@     invariant 0 <= i
+//@     invariant 0 <= i && sent(jobs) == 0 && !closed(jobs)
+
+//@ func dispatch
+//@   requires source != nil && !readfailed(source) && n >= 0 && s >= 0 && wait != nil && sent(jobs) == 0
+//@   modifies nothing
+//@   ghost pos, readfailed, reads, sent, added
+//@   let st := stream(source)
+//@   let p0 := pos(source)@pre
+//@   ensures r0 != nil <==> readfailed(source)
+//@   ensures r0 == nil ==> pos(source) == p0 + s*n && sent(jobs) == s
+//@   ensures added(wait) - added(wait)@pre == sent(jobs) && 0 <= sent(jobs) && sent(jobs) <= s
+//@   ensures forall k int :: {sentfield(jobs, i, k)} 0 <= k && k < sent(jobs) ==> sentfield(jobs, i, k) == k && sentlen(jobs, data, k) == n
+//@   ensures forall k int, t int :: {sentbytes(jobs, data, k)[t]} 0 <= k && k < sent(jobs) && 0 <= t && t < n ==> sentbytes(jobs, data, k)[t] == st[p0 + k*n + t]
+//@   loop 1
+//@     invariant 0 <= i && i <= s && pos(source) == p0 + i*n && !readfailed(source)
+//@     invariant sent(jobs) == i && added(wait) == added(wait)@pre + i
+//@     invariant forall k int :: {sentfield(jobs, i, k)} 0 <= k && k < i ==> sentfield(jobs, i, k) == k && sentlen(jobs, data, k) == n
+//@     invariant forall k int, t int :: {sentbytes(jobs, data, k)[t]} 0 <= k && k < i && 0 <= t && t < n ==> sentbytes(jobs, data, k)[t] == st[p0 + k*n + t]
 
 //@ func FactoryDetectFast
-//@   requires source != nil
+//@   requires source != nil && !readfailed(source)
 //@   modifies nothing
+//@   let B := 125000
+//@   let st := stream(source)
+//@   let p0 := pos(source)@pre
+//@   havoc after Wait: counters, distributions[*]
+//@   assume after Wait: err == nil ==> (forall a int, k int :: {distributions[a][k]} 0 <= a && a < 15 && 0 <= k && k < s ==> distributions[a][k] == qval(a, st, p0 + k*B, B))
+//@   assume after Wait: err == nil ==> (forall a int :: {counters[a]} 0 <= a && a < 15 ==> counters[a] == passcnt(a, st, p0, B, s))
 //@   loop 1
-//@     invariant 0 <= i && i <= s
-//@   loop 2
 //@     invariant forall a int :: {counters[a]} 0 <= a && a < $i ==> counters[a] >= t
-//@   loop 3
-//@     invariant 0 <= i
+//@   loop 2
+//@     invariant forall a int :: {distributions[a]} 0 <= a && a < i ==> ThresholdQ#0(distributions[a]) >= AlphaT
 
 //@ func PowerOnDetectFast
-//@   requires source != nil
+//@   requires source != nil && !readfailed(source)
 //@   modifies nothing
+//@   let B := 125000
+//@   let st := stream(source)
+//@   let p0 := pos(source)@pre
+//@   havoc after Wait: counters, distributions[*]
+//@   assume after Wait: err == nil ==> (forall a int, k int :: {distributions[a][k]} 0 <= a && a < 15 && 0 <= k && k < s ==> distributions[a][k] == qval(a, st, p0 + k*B, B))
+//@   assume after Wait: err == nil ==> (forall a int :: {counters[a]} 0 <= a && a < 15 ==> counters[a] == passcnt(a, st, p0, B, s))
 //@   loop 1
-//@     invariant 0 <= i && i <= s
-//@   loop 2
 //@     invariant forall a int :: {counters[a]} 0 <= a && a < $i ==> counters[a] >= t
-//@   loop 3
-//@     invariant 0 <= i
+//@   loop 2
+//@     invariant forall a int :: {distributions[a]} 0 <= a && a < i ==> ThresholdQ#0(distributions[a]) >= AlphaT
 
 //@ func PeriodDetectFast
-//@   requires source != nil
+//@   requires source != nil && !readfailed(source)
 //@   modifies nothing
+//@   let B := 2500
+//@   let st := stream(source)
+//@   let p0 := pos(source)@pre
+//@   havoc after Wait: counters, distributions[*]
+//@   assume after Wait: err == nil ==> (forall a int, k int :: {distributions[a][k]} 0 <= a && a < 12 && 0 <= k && k < s ==> distributions[a][k] == qval(a, st, p0 + k*B, B))
+//@   assume after Wait: err == nil ==> (forall a int :: {counters[a]} 0 <= a && a < 12 ==> counters[a] == passcnt(a, st, p0, B, s))
 //@   loop 1
-//@     invariant 0 <= i && i <= s
-//@   loop 2
 //@     invariant forall a int :: {counters[a]} 0 <= a && a < $i ==> counters[a] >= t
-//@   loop 3
-//@     invariant 0 <= i
+//@   loop 2
+//@     invariant forall a int :: {distributions[a]} 0 <= a && a < i ==> ThresholdQ#0(distributions[a]) >= AlphaT
+
